@@ -981,6 +981,139 @@ func callSafelyNoPanic(h jrpc2.Handler, res *result, c any, nn []string) {
 }
 
 // ---- 4. Args and Obj ---------------------------------------------------------------------------------
+// checkArgsElementwise: after Args has decoded an array, every slot looks exactly as json.Unmarshal(element i, target i)
+// would have left it - targets of every kind (scalars, pointers, slices, maps, interfaces, raw messages, types with an
+// UnmarshalJSON of their own), holding a value beforehand, and every element in turn spelled as null.
+type nullCounter struct {
+	Calls int
+	Last  string
+}
+
+func (n *nullCounter) UnmarshalJSON(b []byte) error { n.Calls++; n.Last = string(b); return nil }
+
+// checkResultTypes: only the type error itself is an error result. A function whose single result is of a concrete
+// type that happens to have an Error method returns a value: the wrapper hands it back as the result, unchanged,
+// with a nil error (one and two results, with and without a parameter).
+type statusVal struct{ Code int }
+
+func (s statusVal) Error() string { return fmt.Sprint("status ", s.Code) }
+
+func checkResultTypes(res *result) {
+	type tc struct {
+		name string
+		fn   any
+		want any
+	}
+	var nilErr *jrpc2.Error
+	cases := []tc{
+		{"func(ctx) statusVal", func(context.Context) statusVal { return statusVal{3} }, statusVal{3}},
+		{"func(ctx, int) statusVal", func(_ context.Context, n int) statusVal { return statusVal{n} }, statusVal{0}},
+		{"func(ctx) *jrpc2.Error (nil)", func(context.Context) *jrpc2.Error { return nilErr }, nilErr},
+		{"func(ctx) *jrpc2.Error", func(context.Context) *jrpc2.Error { return jrpc2.Errorf(5, "five") }, jrpc2.Errorf(5, "five")},
+		{"func(ctx) (statusVal, error)", func(context.Context) (statusVal, error) { return statusVal{4}, nil }, statusVal{4}},
+		{"func(ctx) *statusVal", func(context.Context) *statusVal { return &statusVal{6} }, &statusVal{6}},
+	}
+	for _, c := range cases {
+		res.Evaluations++
+		res.Classes["resulttype"]++
+		fi, err := handler.Check(c.fn)
+		if err != nil {
+			res.add("C15", c.name, "", "Check rejected a documented signature: "+err.Error())
+			continue
+		}
+		wantT := reflect.TypeOf(c.fn).Out(0)
+		twoRes := reflect.TypeOf(c.fn).NumOut() == 2
+		if fi.ReportsError != twoRes || fi.Result != wantT {
+			res.add("C15", c.name, "", fmt.Sprintf("FuncInfo says ReportsError=%v Result=%v; the function has result type %v and %s", fi.ReportsError, fi.Result, wantT, map[bool]string{true: "an error result", false: "no error result"}[twoRes]))
+		}
+		v, herr, p := callSafely(fi.Wrap(), mkReq(""))
+		if p != nil {
+			res.add("C15", c.name, "", fmt.Sprintf("wrapper panicked: %v", p))
+		} else if herr != nil || !reflect.DeepEqual(v, c.want) {
+			res.add("C15", c.name, "", fmt.Sprintf("the wrapper returned (%#v, %v); the function returned %#v and no error", v, herr, c.want))
+		}
+	}
+}
+
+func checkArgsElementwise(res *result) {
+	seven := 7
+	mk := func() []any {
+		i := 1
+		pi := &seven
+		sl := []string{"old"}
+		m := map[string]int{"old": 1}
+		var a any = "old"
+		raw := json.RawMessage(`"old"`)
+		nc := nullCounter{}
+		st := struct{ A int }{9}
+		str := "old"
+		return []any{&i, &pi, &sl, &m, &a, &raw, &nc, &st, &str}
+	}
+	vals := []string{`7`, `8`, `["n"]`, `{"n":2}`, `[1,"x"]`, `{"r":1}`, `"c"`, `{"A":3}`, `"z"`}
+	for nullAt := -1; nullAt < len(vals); nullAt++ {
+		elems := append([]string(nil), vals...)
+		if nullAt >= 0 {
+			elems[nullAt] = "null"
+		}
+		got, want := mk(), mk()
+		data := "[" + strings.Join(elems, ", ") + "]"
+		a := handler.Args(got)
+		err := json.Unmarshal([]byte(data), &a)
+		res.Evaluations++
+		res.Classes["args/elementwise"]++
+		if err != nil {
+			res.add("C16", "Args, element by element", data, "Args rejected it: "+err.Error())
+			continue
+		}
+		for i := range want {
+			if e := json.Unmarshal([]byte(elems[i]), want[i]); e != nil {
+				res.add("C16", "Args, element by element", data, "harness: reference decoding failed: "+e.Error())
+			}
+		}
+		for i := range want {
+			g, w := reflect.ValueOf(got[i]).Elem().Interface(), reflect.ValueOf(want[i]).Elem().Interface()
+			if !reflect.DeepEqual(g, w) {
+				res.add("C16", "Args, element by element", data, fmt.Sprintf("slot %d holds %#v; json.Unmarshal of element %d (%s) into the same target leaves %#v", i, g, i, elems[i], w))
+			}
+		}
+	}
+	// the same for Obj, key by key (keys without a target are ignored, targets without a key are left alone)
+	keys := []string{"i", "pi", "sl", "m", "a", "raw", "nc", "st", "str"}
+	for nullAt := -1; nullAt < len(vals); nullAt++ {
+		elems := append([]string(nil), vals...)
+		if nullAt >= 0 {
+			elems[nullAt] = "null"
+		}
+		got, want := mk(), mk()
+		o := handler.Obj{}
+		var parts []string
+		for i, k := range keys {
+			if i != (nullAt+3)%len(keys) { // one target has no key in the text
+				parts = append(parts, fmt.Sprintf("%q: %s", k, elems[i]))
+			}
+			o[k] = got[i]
+		}
+		parts = append(parts, `"nobody": null`)
+		data := "{" + strings.Join(parts, ", ") + "}"
+		err := json.Unmarshal([]byte(data), &o)
+		res.Evaluations++
+		res.Classes["obj/elementwise"]++
+		if err != nil {
+			res.add("C16", "Obj, key by key", data, "Obj rejected it: "+err.Error())
+			continue
+		}
+		for i := range want {
+			if i != (nullAt+3)%len(keys) {
+				json.Unmarshal([]byte(elems[i]), want[i])
+			}
+			g, w := reflect.ValueOf(got[i]).Elem().Interface(), reflect.ValueOf(want[i]).Elem().Interface()
+			if !reflect.DeepEqual(g, w) {
+				res.add("C16", "Obj, key by key", data, fmt.Sprintf("target %q holds %#v; json.Unmarshal of its value into the same target leaves %#v", keys[i], g, w))
+			}
+		}
+	}
+}
+
 func checkArgs(c ArgsCell, res *result) {
 	const sentI, sentS = -99, "untouched"
 	vals := []string{`7`, `"x"`, `true`, `[1,2]`}
@@ -1126,11 +1259,13 @@ func TestAdapt(t *testing.T) {
 			}
 			checkOverlap("C15", res)
 			checkParallel("C15", res)
+			checkResultTypes(res)
 			res.Samples = append(res.Samples, "func(context.Context, S2) (any, error) with params [7,\"x\"], strict, AllowArray", "func(context.Context, ...[]int) int")
 		}
 		if which == "C16" {
 			checkOverlap("C16", res)
 			checkParallel("C16", res)
+			checkArgsElementwise(res)
 			checkPosUnnamed(res)
 			for _, c := range tab.Pos {
 				res.Cells++
